@@ -187,12 +187,19 @@ impl Prop for C02 {
                 cfg_mode: if thorough { CfgMode::Dev1All } else { CfgMode::Dev1Relevant },
                 cfg_ctx_limit: if thorough { 3 } else { 1 },
                 l1: thorough,
+                dev_editions: if thorough { vec![] } else { vec![2024] },
             },
             None,
         );
         if !thorough {
-            // quick: deviated configurations start from the one-line layout only
-            units.retain(|u| u.cfg.kv.is_empty() || u.key.ends_with("/L0"));
+            // quick: deviated configurations start from the one-line layout only; deviated forms
+            // under style edition 2024 only (base forms under 2015 and 2024)
+            units.retain(|u| {
+                let base_form = u.key.find('[').map_or(true, |i| {
+                    u.key[i + 1..u.key.find(']').unwrap_or(i + 1)].split(',').all(|c| c == "0" || c.is_empty())
+                });
+                (u.cfg.kv.is_empty() || u.key.ends_with("/L0")) && (base_form || u.cfg.style_edition == 2024)
+            });
         }
         units
     }
